@@ -206,6 +206,9 @@ def combine_ctrlpts_weights(ctrlpts, weights=None):
         weights = [1.0 for _ in range(len(ctrlpts))]
 
     ctrlptsw = []
+    if len(weights) != len(ctrlpts):
+        raise ValueError("The number of weights (" + str(len(weights)) + ") must be equal to the number of control points ("
+                         + str(len(ctrlpts)) + ")")
     for pt, w in zip(ctrlpts, weights):
         temp = [float(c * w) for c in pt]
         temp.append(float(w))
